@@ -48,6 +48,7 @@ class Template:
     def __init__(self, fn: ast.FunctionDef):
         self.fn = fn
         self.tmp = 0
+        self.stored = set()     # python names of lists whose object the cnf holds
         a = fn.args
         if (a.posonlyargs or a.kwonlyargs or a.kwarg or a.vararg or a.defaults or a.kw_defaults
                 or len(a.args) != 3 or fn.decorator_list):
@@ -187,6 +188,22 @@ class Template:
                     add(n)
         return out
 
+    @staticmethod
+    def first_touch(stmts, name):
+        """'assign' / 'append' / 'nested' / None: how the first top-level statement that touches `name` does it"""
+        for st in stmts:
+            if isinstance(st, ast.Assign):
+                tgs = st.targets[0].elts if isinstance(st.targets[0], ast.Tuple) else st.targets
+                if any(isinstance(t, ast.Name) and t.id == name for t in tgs):
+                    return 'assign'
+            elif isinstance(st, ast.Expr) and isinstance(st.value, ast.Call) and \
+                    isinstance(st.value.func, ast.Attribute) and isinstance(st.value.func.value, ast.Name) and \
+                    st.value.func.value.id == name:
+                return 'append'
+            elif any(isinstance(x, ast.Name) and x.id == name for x in ast.walk(st)) and isinstance(st, ast.For):
+                return 'nested'
+        return None
+
     def block(self, stmts, env, pure, indent):
         """-> list of lines; env is updated in place"""
         lines = []
@@ -206,7 +223,14 @@ class Template:
                 v, t = env[f.value.id]
                 if t == 'cnf':
                     e = self.typed(c.args[0], env, hoist, 'ilist')
+                    if isinstance(c.args[0], ast.Name):
+                        # the cnf now holds THIS list object: a later change of it would change the stored
+                        # clause too, which the value translation below would not show
+                        self.stored.add(c.args[0].id)
                 elif t == 'ilist' and v != 'lits':
+                    if f.value.id in self.stored:
+                        fail(s, f'{f.value.id} was stored in the cnf and is changed afterwards (the stored clause '
+                                f'would change with it)')
                     e = self.int_expr(c.args[0], env, hoist)
                 else:
                     fail(s, 'append target must be the cnf or a local list')
@@ -218,6 +242,9 @@ class Template:
                     e, t = self.expr(s.value, env, hoist)
                     if t not in ('int', 'ilist'):
                         fail(s, 'assigned value must be a literal or a list of literals')
+                    if t == 'ilist' and isinstance(s.value, ast.Name):
+                        fail(s, 'a second name for the same list object (aliasing) is outside the grammar')
+                    self.stored.discard(tg.id)
                     if tg.id in env and env[tg.id][0] in ('cnf', 'top_lit', 'lits'):
                         fail(s, 'assignment to a parameter')
                     x = self.bind_name(tg, tg.id)
@@ -267,7 +294,12 @@ class Template:
                     fail(s, 'loop body has no effect on outer variables')
                 inner = dict(env)
                 inner[s.target.id] = (x, elem_t)
+                stored_before = set(self.stored)
                 body = self.block(s.body, inner, True, indent + 4)
+                for n in sorted(self.stored - stored_before):
+                    # stored during one iteration: the next iteration must start from a fresh list
+                    if self.first_touch(s.body, n) != 'assign':
+                        fail(s, f'{n} is stored in the cnf inside the loop and changed again in the next iteration')
                 for n in state:
                     if inner[n][1] != env[n][1]:
                         fail(s, f'loop changes the type of {n}')
